@@ -4,7 +4,8 @@ from . import _hist
 
 LEVEL = "exploration"
 SHARDS = {"quick": 8, "thorough": 16}
-BUDGET = {"quick": 18, "thorough": 200}
+BUDGET = {"quick": 18, "thorough": 280}
+EXHAUSTIVE = {"quick": False, "thorough": True}
 RULE = ("same history workloads as C01 (EX1/EX2/RND/STRESS/PASSIVE; several pairs sharing event instants, undirected "
         "pairs given in either endpoint order); after every accepted call list(stream_interactions()) is checked "
         "offline: chronological, no repeated (pair,op,t), '+' events == run starts of the model's presence, every "
@@ -77,7 +78,8 @@ def run(ctx, dn):
         for _ in range(40):
             derived_later(ctx, dn)
     else:
-        _hist.exhaustive(ctx, dn, battery, 3, two_pairs_len=3)
+        # every history of length <= 4 over one pair (2 x 2 625 640 histories over the 16 shards), then two pairs
+        _hist.exhaustive(ctx, dn, battery, 4, two_pairs_len=3)
         _hist.second_life(ctx, dn, battery, 60)
         _hist.long_timelines(ctx, dn, battery, 40)
         _hist.random_histories(ctx, dn, battery, until=25, clears=True)
